@@ -28,6 +28,7 @@ func prefixDestination(prefix, v string) string {
 // and then moves everything below /t<id>.
 func genTask(seed uint64, tier string, id int, maxOps int) TaskPlan {
 	g := newGen(seed, tier, "C18", "task")
+	g.noEscape = true // "/../x" below a prefix would leave the task's subtree
 	prefix := fmt.Sprintf("/t%d", id)
 	g.maxSize = 3000
 	if g.r.Chance(0.15) {
